@@ -191,4 +191,77 @@ def Agrees (p : Program) : Prop := agreesCheck p = true
 
 instance (p : Program) : Decidable (Agrees p) := inferInstanceAs (Decidable (_ = true))
 
+
+/-! ### programs with subroutine calls (TN5177 §4.7 "Subroutine operators")
+
+Stack-neutral subroutines: a body is a sequence of complete tokens of the grammar (it may itself call
+subroutines) followed by `return`; a body may also end the glyph with `endchar`.  A call is written
+"biased index, callsubr/callgsubr"; the bias depends on the size of the called table. -/
+
+inductive PTok
+  | tok (t : Tok)
+  | call (glob : Bool) (idx : Nat)
+deriving Repr, DecidableEq
+
+abbrev PProgram := List PTok
+
+/-- token-level local and global subroutine tables -/
+structure Tables where
+  lsubrs : List PProgram
+  gsubrs : List PProgram
+deriving Repr
+
+def Tables.tbl (T : Tables) (glob : Bool) : List PProgram := if glob then T.gsubrs else T.lsubrs
+
+/-- "callsubr: calls a charstring subroutine with index subr# (actually the subr number plus the
+subroutine bias number, as described in section 2.3)" -/
+def biased (n idx : Nat) : Int := (idx : Int) - bias n
+
+def encodePTok (T : Tables) : PTok → List Nat
+  | .tok t => encodeTok t
+  | .call g i => encodeInt (biased (T.tbl g).length i) ++ opBytes (if g then .callgsubr else .callsubr)
+
+def encodeP (T : Tables) (p : PProgram) : List Nat := p.flatMap (encodePTok T)
+
+/-- the bytes of a subroutine: its tokens, then `return` -/
+def encodeBody (T : Tables) (p : PProgram) : List Nat := encodeP T p ++ opBytes .ret
+
+/-- the `decodeInfo` of a font with these tables -/
+def Tables.env (T : Tables) (dw nw : Int) : Env :=
+  ⟨T.lsubrs.map (encodeBody T), T.gsubrs.map (encodeBody T), dw, nw⟩
+
+/-- the grammar with calls: `dep` nesting levels are still available (10 at top level); `f` is fuel
+for the checker (total number of tokens visited); a call needs room for its index operand, a valid
+index, a table of at most 65536 entries, and the body must be well formed in the caller's state -/
+def wfRunP (T : Tables) : Nat → Nat → Abs → PProgram → Option Abs
+  | 0, _, _, _ => none
+  | _ + 1, _, a, [] => some a
+  | f + 1, dep, a, .tok t :: r => (wfTok a t).bind (wfRunP T f dep · r)
+  | f + 1, dep, a, .call g i :: r =>
+    match dep with
+    | 0 => none
+    | dep' + 1 =>
+      if a.ended || a.depth + 1 > Gen.t2maxStack || (T.tbl g).length > 65536 then none
+      else
+        match (T.tbl g)[i]? with
+        | none => none
+        | some q =>
+          match wfRunP T f dep' a q with
+          | none => none
+          | some a2 => if a2.ended then (if r.isEmpty then some a2 else none) else wfRunP T f (dep' + 1) a2 r
+
+/-- decidable checker for a program with subroutine tables -/
+def wfCheckP (T : Tables) (fuel : Nat) (p : PProgram) : Bool :=
+  match wfRunP T fuel Gen.t2callDepth {} p with
+  | some a => a.ended
+  | none => false
+
+def agreesPTok : PTok → Bool
+  | .tok t => agreesTok t
+  | .call _ _ => true
+
+/-- the main program and every subroutine body avoid the known deviations -/
+def agreesCheckP (T : Tables) (p : PProgram) : Bool :=
+  p.all agreesPTok && T.lsubrs.all (·.all agreesPTok) && T.gsubrs.all (·.all agreesPTok)
+
 end SfntV.Spec.T2
